@@ -754,3 +754,177 @@ Fixpoint exec_chain (prev : N) (l : list N) : list event :=
   | b :: r => [EVerify prev b true; NVerified b; EAccept (Some prev) b; NAccepted b] ++ exec_chain b r
   end.
 
+(* ================================================================== C20: verification with a P-Chain block context
+   (snow/block.go VerifyWithContext / verifyWithContext / verifyPChainCtx, snow/vm.go BuildBlockWithContext).
+   Add-only layer on top of [step]: blocks may carry an inner P-Chain context (a P-Chain height), kept in a
+   side table [tbl : block number -> height]; the engine may call VerifyWithContext(ctx) instead of Verify()
+   (Verify() = VerifyWithContext(nil)) and BuildBlockWithContext(ctx) instead of BuildBlock(). *)
+Definition eCtxMismatch := 10.    (* errMismatchedPChainContext *)
+
+Inductive cop :=
+| COp (o : op)                                       (* any call above; new blocks carry no context, OVerify = Verify() *)
+| CParseNew (parent : N) (invalid : bool) (ictx : option N)   (* bytes of a new block whose inner context is ictx *)
+| CBuild (bctx : option N)                           (* BuildBlockWithContext(bctx): the built block embeds bctx *)
+| CVerify (h : N) (vctx : option N).                 (* VerifyWithContext(vctx)  (None = nil pointer) *)
+
+(* the call of the context-free model a call corresponds to *)
+Definition base (co : cop) : op :=
+  match co with
+  | COp o => o
+  | CParseNew p inv _ => OParseNew p inv
+  | CBuild _ => OBuild
+  | CVerify h _ => OVerify h
+  end.
+
+(* inner context of the block the call creates (if it creates one) *)
+Definition new_ctx (co : cop) : option N :=
+  match co with
+  | CParseNew _ _ x => x
+  | CBuild x => x
+  | _ => None
+  end.
+
+(* handle and provided context of a verify call *)
+Definition vcall (co : cop) : option (N * option N) :=
+  match co with
+  | COp (OVerify h) => Some (h, None)
+  | CVerify h v => Some (h, v)
+  | _ => None
+  end.
+
+(* verifyPChainCtx(provided, inner) == nil *)
+Definition ctx_eqb (provided inner : option N) : bool :=
+  match provided, inner with
+  | None, None => true
+  | Some x, Some y => x =? y
+  | _, _ => false
+  end.
+
+(* StatefulBlock.verifyWithContext, line by line: the [OVerify] case of [step] plus the two context checks *)
+Definition verify_ctx (st : state) (tbl : list (N * N)) (h : N) (v : option N) : state * res * list event :=
+  match nthN (s_objs st) h with
+  | None => (st, RErr eBadHandle, [])
+  | Some ob =>
+    let b := o_id ob in
+    if negb (s_ready st) then (set_verified (mput b h (s_verified st)) st, RUnit, [])   (* case !ready: no context check *)
+    else if o_verified ob then                                                           (* case b.verified *)
+      if negb (ctx_eqb v (lookup b tbl)) then (st, RErr eCtxMismatch, [])
+      else (set_verified (mput b h (s_verified st)) st, RUnit, [])
+    else
+      match get_block st (parent st b) with
+      | None => (st, RErr eNotFound, [])
+      | Some pr =>
+        let po := ref_obj st pr in
+        if negb (o_verified po) then (st, RErr eParentFailed, [])
+        else if negb (ctx_eqb v (lookup b tbl)) then (st, RErr eCtxMismatch, [])
+        else if invalid st b then (st, RErr eInvalidBlock, [EVerify (o_id po) b false])
+        else
+          let st1 := mark_verified h st in
+          (set_verified (mput b h (s_verified st1)) st1, RUnit, [EVerify (o_id po) b true; NVerified b])
+      end
+  end.
+
+Definition cstate : Type := state * list (N * N).
+
+Definition cstep (c : cfg) (cs : cstate) (co : cop) : cstate * res * list event :=
+  let '(st, tbl) := cs in
+  match vcall co with
+  | Some (h, v) => let '(st', r, evs) := verify_ctx st tbl h v in ((st', tbl), r, evs)
+  | None =>
+    let '(st', r, evs) := step c st (base co) in
+    let tbl' := match new_ctx co with
+                | Some x => if lenN (s_blocks st) <? lenN (s_blocks st') then (lenN (s_blocks st), x) :: tbl else tbl
+                | None => tbl
+                end in
+    ((st', tbl'), r, evs)
+  end.
+
+Definition init_cstate (c : cfg) : cstate := (init_state c, []).
+
+Fixpoint crun_obs (c : cfg) (cs : cstate) (cops : list cop) : list (res * list event) :=
+  match cops with
+  | [] => []
+  | co :: r => let '(cs1, rs, evs) := cstep c cs co in (rs, evs) :: crun_obs c cs1 r
+  end.
+
+(* the engine contract is that of the context-free calls: the engine may pass any context to a
+   block it may verify; its bookkeeping only depends on the answers *)
+Fixpoint cerun (c : cfg) (Q : N) (cs : cstate) (es : estate) (cops : list cop)
+  : option (cstate * estate * list event) :=
+  match cops with
+  | [] => Some (cs, es, [])
+  | co :: r =>
+    if eguard Q es (base co) then
+      let '(cs1, rs, evs) := cstep c cs co in
+      match cerun c Q cs1 (eupd es (base co) rs evs) r with
+      | Some (cs2, es2, evss) => Some (cs2, es2, evs ++ evss)
+      | None => None
+      end
+    else None
+  end.
+
+Definition cengine_ok (c : cfg) (Q : N) (cops : list cop) : bool :=
+  match cerun c Q (init_cstate c) (init_estate c) cops with Some _ => true | None => false end.
+
+(* a verify call that failed on the context check *)
+Definition is_mismatch (co : cop) (r : res) : bool :=
+  match vcall co, r with
+  | Some _, RErr e => e =? eCtxMismatch
+  | _, _ => false
+  end.
+
+(* the context-free run a context-aware run projects to: verify calls that failed on the context
+   check are erased (they are stutter steps), every other call is mapped to its [base] *)
+Fixpoint project (c : cfg) (cs : cstate) (cops : list cop) : list op :=
+  match cops with
+  | [] => []
+  | co :: r =>
+    let '(cs1, rs, _) := cstep c cs co in
+    (if is_mismatch co rs then [] else [base co]) ++ project c cs1 r
+  end.
+
+(* per-call form of "verified / rejected notifications match the engine's decisions one to one":
+   the notifications made during a call are exactly the decisions the engine records for that call
+   (one verified notification for a successful Verify of a block it did not build, one rejected
+   notification for a Reject, none otherwise - in particular none for a call that returned an error) *)
+Definition notif_ok (es : estate) (o : op) (r : res) (evs : list event) : bool :=
+  let es' := eupd es o r evs in
+  eqb_listN (verified_parsed es ++ nverified evs) (verified_parsed es')
+  && eqb_listN (e_rej es ++ nrejected evs) (e_rej es').
+
+Fixpoint notifs_ok (es : estate) (ops : list op) (obs : list (res * list event)) : bool :=
+  match ops, obs with
+  | o :: r, (rs, evs) :: obs' => notif_ok es o rs evs && notifs_ok (eupd es o rs evs) r obs'
+  | _, _ => true
+  end.
+
+(* the context check as the engine sees it: [etbl] is the engine's own record of the inner contexts
+   of the blocks it handed to / got from the VM.  In normal operation a verify call whose context
+   differs from the block's inner context is refused: an error, and no chain callback or
+   notification at all during the call. *)
+Definition ctx_call_ok (es : estate) (etbl : list (N * N)) (co : cop) (r : res) (evs : list event) : bool :=
+  match vcall co with
+  | Some (h, v) =>
+    match lookup h (e_hid es) with
+    | Some b =>
+      if e_ready es && negb (ctx_eqb v (lookup b etbl))
+      then match r, evs with RErr _, [] => true | _, _ => false end
+      else match r with RErr e => negb (e =? eCtxMismatch) | _ => true end
+    | None => true
+    end
+  | None => true
+  end.
+
+Definition etbl_upd (es es' : estate) (etbl : list (N * N)) (co : cop) : list (N * N) :=
+  match new_ctx co with
+  | Some x => if lenN (e_blocks es) <? lenN (e_blocks es') then (lenN (e_blocks es), x) :: etbl else etbl
+  | None => etbl
+  end.
+
+Fixpoint ctxs_ok (es : estate) (etbl : list (N * N)) (cops : list cop) (obs : list (res * list event)) : bool :=
+  match cops, obs with
+  | co :: r, (rs, evs) :: obs' =>
+    let es' := eupd es (base co) rs evs in
+    ctx_call_ok es etbl co rs evs && ctxs_ok es' (etbl_upd es es' etbl co) r obs'
+  | _, _ => true
+  end.
